@@ -1312,6 +1312,12 @@ def search_failing(ctx, broken):
     rng = random.Random(ctx['seed'] * 7919 + 2)
     g = G(rng, malformed=0.0)
     cases = _enum_small()
+    C = sys.modules[__name__]
+    k = ctx['seed'] % 5
+    cases += R4.enum_coincide(C)[k::5] + R4.enum_context(C)[k::5] + R4.enum_awrap(C)[k::5]     # round-4 classes
+    gc = R4.make_gc(C, rng)
+    for _ in range(300):
+        cases.append(R4.gen_coincide(rng, g, C, gc))
     for _ in range(1500):
         cases.append(g.prog_case(rng.choice([1, 2, 3])))
     for _ in range(500):
